@@ -25,18 +25,20 @@ def regenerate(ctx):
     pass
 
 
-def gen_class(rng, name, depth, counter):
+def gen_class(rng, name, depth, counter, broken=False):
     members = []
     for i in range(rng.randint(1, 6)):
         r = rng.random()
         nm = f'a{len(members)}'
-        if r < 0.45:
+        if broken and r < 0.2:
+            members.append([nm, ['broken']])
+        elif r < 0.45:
             kind = rng.choice(['func', 'func', 'classmethod', 'staticmethod'])
             members.append([nm, [kind, rng.random() < 0.7, rng.random() < 0.12, rng.random() < 0.15]])
         elif r < 0.6:
             members.append([nm, ['property', rng.random() < 0.6, rng.random() < 0.6, rng.random() < 0.6]])   # getter annotated?, setter?, setter annotated?
         elif r < 0.75 and depth > 0:
-            members.append([f'N{len(members)}', ['nested', gen_class(rng, f'N{len(members)}', depth - 1, counter)]])
+            members.append([f'N{len(members)}', ['nested', gen_class(rng, f'N{len(members)}', depth - 1, counter, broken)]])
         elif r < 0.85:
             members.append([nm, ['foreign']])
         else:
@@ -68,6 +70,10 @@ def coq_cls(c, counter):
             g = '(Some (Plain %d %s false))' % (counter[0] - 1, 'true' if m[1] else 'false')
             s = '(Some (Plain %d %s false))' % (counter[0], 'true' if m[3] else 'false') if m[2] else 'None'
             t = '(MProperty %s %s None)' % (g, s)
+        elif k == 'broken':
+            # left as it is, like a @no_type_check member (the model has no separate notion of an undecoratable member)
+            counter[0] += 1
+            t = '(MFunc (Plain %d true true))' % counter[0]
         elif k == 'nested':
             t = '(MNested %s)' % coq_cls(m[1], counter)
         elif k == 'foreign':
@@ -84,14 +90,14 @@ def flat_wrappers(c, obs):
         o = obs[name]
         if m[0] == 'nested':
             out += flat_wrappers(m[1], o['nested'])
-        elif m[0] in ('func', 'classmethod', 'staticmethod', 'property'):
+        elif m[0] in ('func', 'classmethod', 'staticmethod', 'property', 'broken'):
             out += [bool(x) for x in o['wrappers'] if x is not None]
     return out
 
 
 def member_problems(c, obs, o0):
     """clauses of the property checked directly on the implementation, per member"""
-    kinds = {'func': 'function', 'classmethod': 'classmethod', 'staticmethod': 'staticmethod', 'property': 'property',
+    kinds = {'broken': 'function', 'func': 'function', 'classmethod': 'classmethod', 'staticmethod': 'staticmethod', 'property': 'property',
              'nested': 'type', 'foreign': 'type', 'data': 'int'}
     out = []
     for name, m in c['members']:
@@ -108,6 +114,8 @@ def member_problems(c, obs, o0):
             expect_identity = o0 or not m[1] or m[2] or (m[3] and m[1] and not m[2])
             if expect_identity and not all(o['funcs_same']):
                 out.append(('identity', f'{name}: replaced although decoration should be the identity'))
+        if m[0] == 'broken' and not all(o['funcs_same']):
+            out.append(('identity', f'{name}: a member that cannot be decorated was replaced'))
         if m[0] == 'nested':
             out += member_problems(m[1], o['nested'], o0)
     return out
@@ -126,7 +134,7 @@ def python_O_probe():
 def run(ctx):
     ctx.rule = ('classes with 1-6 own attributes drawn from plain / class / static methods (70% annotated, 12% @no_type_check, 15% '
                 'already decorated), properties (getter, optional setter), nested classes (depth <= 2), attributes holding a foreign '
-                'class, data; 40% with an annotated base class; default configuration and strategy O0; every callable member called '
+                'class, data; 40% with an annotated base class; default configuration, strategy O0, and warning_cls_on_decorator_exception with members that cannot be decorated (25%); every callable member called '
                 'with a conforming and a violating argument; non-trivial = >= 2 descriptor kinds or a nested class; distinct = distinct class')
     ctx.assumptions += ['dataclasses (is_pep557_fields), metaclasses with __call__, and class redefinition are exercised by the repository tests only',
                         'python -O is probed in one separate interpreter (three identities)']
@@ -145,8 +153,9 @@ def run(ctx):
     n = {'quick': 400, 'thorough': 12000}[ctx.tier]
     cases = []
     for i in range(n):
-        c = gen_class(ctx.rng, 'K', 2, [0])
-        case = {'cls': c, 'O0': ctx.rng.random() < 0.2}
+        warn = ctx.rng.random() < 0.25
+        c = gen_class(ctx.rng, 'K', 2, [0], broken=warn)
+        case = {'cls': c, 'O0': (not warn) and ctx.rng.random() < 0.2, 'warn_decor': warn}
         if ctx.rng.random() < 0.4:
             case['base'] = {'name': 'Base', 'members': [['b0', ['func', True, False, False]], ['b1', ['classmethod', True, False, False]]], 'bases': []}
             c['bases'] = ['Base']
